@@ -25,8 +25,8 @@ from harness.common import dec_str, enc_str
 
 ID = "C18"
 BACKENDS = ("py", "rs")
-GEN_MODULES = ("Locales",)
-MIN_THEOREMS = 26
+GEN_MODULES = ("Locales", "DiffFmt")
+MIN_THEOREMS = 36
 RULE = ("every shipped locale x 7 units x counts 0..200 (quick) / 0..1000 (thorough) x is_now x direction x absolute "
         "through format_diff / DifferenceFormatter.format on real Durations, Intervals or attribute carriers; every rounding "
         "threshold neighbourhood; random pairs of instants (month ends and the turn of the year over-sampled) whose English phrase must be within "
